@@ -2,6 +2,7 @@
 from __future__ import annotations
 
 import itertools
+import random
 import re
 
 from contracts import c20 as K
@@ -138,14 +139,24 @@ def bounded(tier, seed, procs):
             if not ok:
                 b1.fail(Failure("reads-writes", f"what=map_expressions include_lhs={inc} stmt={st}", dict(kind="map", stmt=str(st), inc=inc),
                                 expected="lhs/rhs/condition mapped, rest unchanged", actual=outcome.describe(m)[:200], functions=["map_expressions"]))
-    b2 = BoundedRun("fuse", rule="all pairs of streams (<= 2 statements quick / 3 thorough; ids from {s, t, s_0}; all backward dependency sets): ids of the fused stream all distinct, "
+    b2 = BoundedRun("fuse", rule="all pairs of streams (<= 2 statements quick / 3 thorough; ids from {s, t, s_0}; all acyclic dependency sets, the second stream in every listing order): ids of the fused stream all distinct, "
                     "first stream unchanged (same objects), second stream in order with id = mapping[id] and depends_on = {mapping[d]}; fusing the result again with a stream; "
-                    "non-trivial = pair with an id clash", bound="~2000 stream pairs", functions=["fuse_statement_streams_with_unique_ids"])
+                    "non-trivial = pair with an id clash", bound="~10000 stream pairs (seeded sample of the enumeration)", functions=["fuse_statement_streams_with_unique_ids"])
     L = 3 if tier == "thorough" else 2
-    sts = streams(L, ["s", "t", "s_0"])
-    if len(sts) > 260:
-        sts = sts[::max(1, len(sts) // 260)]
-    for A, B in itertools.product(sts, sts[::3] if tier == "quick" else sts[::2]):
+    sts_all = streams(L, ["s", "t", "s_0"])
+    # thinning by a seeded sample (a fixed stride once aliased with the enumeration order and dropped every stream with a dependency)
+    rnd = random.Random(20)
+    with_deps = [s for s in sts_all if any(x.depends_on for x in s)]
+    without = [s for s in sts_all if not any(x.depends_on for x in s)]
+    first = rnd.sample(sts_all, min(len(sts_all), 60 if tier == "thorough" else 36)) + [[]]
+    second = rnd.sample(with_deps, min(len(with_deps), 400 if tier == "thorough" else 150)) + rnd.sample(without, min(len(without), 40)) + [[]]
+    pairs = []
+    for A, B0 in itertools.product(first, second):
+        # the second stream in every listing order: a statement may depend on one that is listed after it (the graph stays acyclic)
+        orders = list(itertools.permutations(B0)) if (len(B0) > 1 and any(s.depends_on for s in B0)) else [tuple(B0)]
+        for B in orders:
+            pairs.append((A, list(B)))
+    for A, B in pairs:
         r = outcome.run(lambda: fuse_statement_streams_with_unique_ids(A, B))
         clash = bool({s.id for s in A} & {s.id for s in B})
         b2.case((tuple((s.id, str(s)) for s in A), tuple((s.id, str(s), tuple(sorted(s.depends_on))) for s in B)), nontrivial=clash,
@@ -167,8 +178,8 @@ def bounded(tier, seed, procs):
                     bound="~900 pairs x 3 filters", functions=["disambiguate_identifiers", "disambiguate_and_fuse", "get_all_used_identifiers"])
     filters = {"all": None, "none": lambda n: False, "only-a": lambda n: n == "a"}
     small = streams(2, ["s", "t"])
-    small = small[::max(1, len(small) // 60)]
-    for A, B in itertools.product(small, small[::2]):
+    small = trees.thin(small, 60, seed=3)
+    for A, B in itertools.product(small, trees.thin(small, 30, seed=4)):
         for fname, flt in filters.items():
             idsA = set().union(*[ref_reads(s) | ref_writes(s) for s in A]) if A else set()
             idsB = set().union(*[ref_reads(s) | ref_writes(s) for s in B]) if B else set()
